@@ -28,10 +28,11 @@ def run(run, tier, seed, args):
         "liveness of a weakly referenced object (state.obj() is None) does not change during one container call: the `except KeyError` GC-race arms are proved unreachable sequentially",
         "dictionary keys compare by value identity of the modelled key (identity keys are tuples of hashable values)",
         "SessionTransaction._remove_snapshot: only the SAVEPOINT-release arm is under proof (precondition self.nested)",
-        "SessionTransaction._restore_snapshot (rollback): Session._expunge_states and Session._update_impl are ASSUMED summaries (expunge: the given states lose their key and "
-        "their binding, nothing else leaves the identity map; _update_impl: the state leaves Session._deleted, no identity key is written), all_states() is a havocked "
+        "SessionTransaction._restore_snapshot (rollback): Session._expunge_states is under proof itself (the given states lose their binding, nothing else leaves the identity "
+        "map; InstanceState._detach_states enters as a summary: keys dropped exactly when to_transient, proved under C35 in its own vocabulary); Session._update_impl is an "
+        "ASSUMED summary (the state leaves Session._deleted, no identity key is written), all_states() is a havocked "
         "sequence and InstanceState._expire a no-op on the modelled fields; precondition: every bound state carries the key it is bound under (clause A of the bounded "
-        "complement; evaluated at every real call, calls where it is false are counted in the evidence); the identity-map postconditions hold right after the key-switch "
+        "complement), no pending state is bound, the session has a current transaction, the bookkeeping dictionaries are distinct objects (evaluated at every real call, calls where it is false are counted in the evidence); the identity-map postconditions hold right after the key-switch "
         "loop (loop invariant), the function's own postcondition speaks about identity keys only",
         "Session._register_persistent: mapper._identity_key_from_state(state) is an uninterpreted pure function of the state (the identity key its current primary key gives), "
         "_state_mapper / state_str / _none_set tests are havocked values, util.warn / _register_altered / the pending_to_persistent event / self._new.pop are no-ops on the "
